@@ -51,7 +51,7 @@ def pos (size : Ix → Nat) (inds : List Ix) (a : Asg) : Nat :=
 structure Tensor (α : Type) where
   inds : List Ix
   data : List α
-deriving Repr, BEq
+deriving Repr, BEq, DecidableEq
 
 variable {α : Type}
 
@@ -139,6 +139,7 @@ structure SState (α : Type) where
   factors : List α
   zero : Bool := false
   nan : Bool := false
+deriving DecidableEq
 
 section run
 variable [Add α] [Mul α] [Div α] [Neg α] [Zero α] [Max α] [DecidableEq α]
@@ -192,6 +193,7 @@ end run
 structure Stripped (α : Type) where
   m : Tensor α
   f : α
+deriving DecidableEq
 
 section pairs
 variable [Add α] [Mul α] [Div α] [Zero α] [Max α]
@@ -219,5 +221,84 @@ def rescaleChunks (chunks : List (Stripped α)) : List (Tensor α) × α :=
     ((c :: cs).map fun x => scale (x.f / F) x.m, F)
 
 end pairs
+
+/-! ## slice results with their status, and their combination -/
+
+/-- what one slice returns: a finite pair, the `check_zero` exit `(0.0, -inf)`, or a `nan` mantissa -/
+inductive SRes (α : Type) where
+  | ok (s : Stripped α)
+  | zero
+  | nan
+deriving DecidableEq
+
+section sres
+variable [Add α] [Mul α] [Div α] [Neg α] [Zero α] [One α] [Max α] [DecidableEq α]
+
+def prodL : List α → α
+  | [] => 1
+  | f :: rest => f * prodL rest
+
+/-- `contract_core(strip_exponent=True)` on one slice -/
+def sliceRes (size : Ix → Nat) (checkZero : Bool) (steps : List Step) (T0 : Temps α) : Option (SRes α) :=
+  match runStrip size checkZero steps { temps := T0, factors := [] } with
+  | none => none
+  | some S =>
+    if S.nan then some .nan
+    else if S.zero then some .zero
+    else match S.temps with
+      | [(_, m)] => some (.ok { m := m, f := prodL S.factors })
+      | _ => none
+
+/-- `add_maybe_exponent_stripped` on slice results.  `(0.0, -inf)` added to a finite pair leaves
+    the pair unchanged (`0.0 * 10 ** -inf + ym * 1`); two `(0.0, -inf)` give `(0.0, -inf)` -- this
+    is the code *after* fixes/C19-check-zero-slices.patch (before it: `10 ** (-inf - -inf) = nan`,
+    see `addResOld`). -/
+def addRes : SRes α → SRes α → SRes α
+  | .nan, _ => .nan
+  | _, .nan => .nan
+  | .zero, .zero => .zero
+  | .zero, .ok y => .ok y
+  | .ok x, .zero => .ok x
+  | .ok x, .ok y => .ok (addStripped x y)
+
+/-- the unrepaired `add_maybe_exponent_stripped` -/
+def addResOld : SRes α → SRes α → SRes α
+  | .zero, .zero => .nan
+  | x, y => addRes x y
+
+def sumRes (add : SRes α → SRes α → SRes α) : SRes α → List (SRes α) → SRes α
+  | acc, [] => acc
+  | acc, s :: rest => sumRes add (add acc s) rest
+
+/-- result of `gather_slices` in the stripped branch -/
+inductive GRes (α : Type) where
+  | ok (chunks : List (Tensor α)) (f : α)
+  | zero
+  | nan
+deriving DecidableEq
+
+def SRes.isNan : SRes α → Bool
+  | .nan => true
+  | _ => false
+
+/-- the stripped branch of `gather_slices` on per-chunk results (after
+    fixes/C19-check-zero-slices.patch): a `nan` chunk makes the stacked mantissa contain `nan`;
+    if every chunk is `(0.0, -inf)` the result is `(0.0, -inf)`; otherwise the finite chunks are
+    rescaled to the largest factor (`rescaleChunks`) and the zero chunks become `zeros_like` a
+    finite chunk -/
+def gatherRes (chunks : List (SRes α)) : GRes α :=
+  if chunks.any SRes.isNan then .nan
+  else
+    let oks := chunks.filterMap fun c => match c with | .ok x => some x | _ => none
+    match oks with
+    | [] => .zero
+    | t :: _ =>
+      let F := (rescaleChunks oks).2
+      .ok (chunks.map fun c =>
+            match c with
+            | .ok x => scale (x.f / F) x.m
+            | _ => { t.m with data := t.m.data.map fun _ => 0 }) F
+
+end sres
 
 end Cotengra.Strip
